@@ -360,6 +360,22 @@ func replayC15(rp map[string]any) (bool, string) {
 		return unlatin1(s)
 	}
 	switch rp["check"] {
+	case "session-long":
+		long := []string{"v = 0", "f = func(x) {x}", "w = 0"}
+		for i := 0; i < 5300; i++ {
+			long = append(long, str("end"), str("start"))
+		}
+		long = append(long, "println(v, w)")
+		var chunks []string
+		for i := 0; i < len(long); i += 1000 {
+			chunks = append(chunks, strings.Join(long[i:min(i+1000, len(long))], "\n")+"\n")
+		}
+		b := c15RunInputs([]string{strings.Join(long, "\n") + "\n"}, false)
+		a := c15RunInputs(chunks, false)
+		if (b.Err || b.Panicked) != (a.Err || a.Panicked) || a.Out != b.Out {
+			return false, fmt.Sprintf("as one input: err=%v %s; in chunks of 1000: err=%v", b.Err || b.Panicked, clip(b.ErrMsg, 160), a.Err || a.Panicked)
+		}
+		return true, ""
 	case "cut":
 		o := c15ParseMode(str("prefix"), true, false)
 		if o.Code() == "c" {
